@@ -399,7 +399,7 @@ def check_any_scalar(case: str, ctx: Ctx) -> None:
 
 
 def misc_cases(shard: int, nshards: int) -> t.Iterator[t.Any]:
-    for (i, c) in enumerate([*ANY_SCALAR, 'enum-values:call', 'enum-values:class', 'mapping-not-empty-tuple', 'mapping-not-subclass', 'mapping-not-parameterised', 'global-not-for-int', 'global-before-sequence', 'global-after-protocol',
+    for (i, c) in enumerate([*ANY_SCALAR, 'one-handler-two-roles:enclosing-first', 'one-handler-two-roles:call-first', 'enum-values:call', 'enum-values:class', 'mapping-not-empty-tuple', 'mapping-not-subclass', 'mapping-not-parameterised', 'global-not-for-int', 'global-before-sequence', 'global-after-protocol',
                              'global-before-builtin-list', 'global-before-builtin-dict', 'global-before-builtin-tuple', 'global-nested-in-dataclass']):
         if i % nshards == shard:
             yield c
@@ -415,6 +415,33 @@ def check_misc(case: str, ctx: Ctx) -> None:
         check_any_scalar(case, ctx)
         return
     conv = _label_conv('C')
+    if case.startswith('one-handler-two-roles'):
+        # one handler object (callable form) serves as the custom= of an enclosing dataclass and, in another conversion, as the custom=
+        # of a call; the nested class has a handler of its own.  Call handlers come before the nested class's, the enclosing class's
+        # after them - in whichever order the two conversions run (converters are memoised by type *and* handlers)
+        M = type('M', (), {})
+        (hconv, oconv) = (_label_conv('H'), _label_conv('O'))
+
+        def shared(ty: t.Any, args: t.Any, *, handlers: t.Any) -> t.Any:
+            return hconv if ty is M else NotImplemented
+        Inner = type('Inner', (pane.PaneBase,), {'__annotations__': {'m': M}}, custom={M: oconv})
+        Outer = type('Outer', (pane.PaneBase,), {'__annotations__': {'inner': Inner, 't': M}}, custom=shared)
+        _KEEP.extend([M, Inner, Outer])
+        steps = [('enclosing', lambda: pane.from_data({'inner': {'m': 7}, 't': 7}, Outer), lambda r: (r.inner.m.source, r.t.source), ('O', 'H')),
+                 ('call', lambda: pane.from_data({'m': 7}, Inner, custom=shared), lambda r: (r.m.source,), ('H',)),
+                 ('call-in-list', lambda: pane.from_data([{'m': 7}], t.List[Inner], custom=shared), lambda r: (r[0].m.source,), ('H',)),
+                 ('enclosing-again', lambda: pane.from_data({'inner': {'m': 7}, 't': 7}, Outer), lambda r: (r.inner.m.source, r.t.source), ('O', 'H'))]
+        if case.endswith('call-first'):
+            steps = [steps[1], steps[2], steps[0], steps[3]]
+        for (what, f, get, want) in steps:
+            ctx.evaluated()
+            (k, r) = outcome(f)
+            got = get(r) if k == 'ok' else r
+            if got != want:
+                ctx.fail('precedence', f"one-handler-two-roles:{what}", f"{case}: step '{what}' produced sources {got!r}, the documented order gives {want!r} "
+                         f"(H = the shared handler, O = the nested class's own)")
+                return
+        return
     if case.startswith('enum-values'):
         # "in both directions": a handler for the type of an enum's values (here: ints are kept as hex text) that is used to read
         # a member's value is also used to write it - what the enum writes under the handlers is what it reads under them
